@@ -103,6 +103,12 @@ class Subject(object):
         third = K.new_key('ed25519', name='Third', email='third@x.org')
         self.key.userids[0] |= third.certify(self.key.userids[0], created=K.ts(K.T0 + 40))
         self.key.userids[0] |= third.certify(self.key.userids[0], exportable=False, created=K.ts(K.T0 + 41))
+        # key-level signatures issued by ANOTHER key: a third-party direct-key certification, and a designated revoker named by the key itself
+        try:
+            self.key |= third.certify(self.key, created=K.ts(K.T0 + 42))
+            self.key |= self.key.revoker(third.pubkey, created=K.ts(K.T0 + 43))
+        except Exception:
+            pass
         self.clear_blob = bytes(self.key)
         self.start_blob = self.clear_blob
         self.init = None
